@@ -184,6 +184,7 @@ def render (r : String) (o : Obs) : String :=
 
 def rtok : Rtok → String
   | .ok => "ok" | .multiple => "err:multiple" | .closed => "err:closed" | .skip => "skip"
+  | .pair a b => rtok a ++ "+" ++ rtok b
 
 /-! ### the component -/
 
@@ -199,6 +200,8 @@ def init : State := none
 def parseOp (toks : List String) (il : ImplLine) : Option Op :=
   match toks with
   | ["gather"] => some .gather
+  | ["gather2"] => some .gather2
+  | ["grg"] => some .grg
   | ["restart"] => some .restart
   | ["close"] => some .close
   | ["fail"] => some (.fail il.obs.now il.obs.failed)
